@@ -49,6 +49,9 @@ func dGoType(tok string) string {
 	case 'L':
 		return "T" + tok[1:]
 	case 'I':
+		if j, k, ok := strings.Cut(tok[1:], "x"); ok {
+			return "T" + j + "[T" + k + "]" // instantiated with a defined type of the package
+		}
 		return "T" + tok[1:] + "[int]"
 	case 'P':
 		return "P"
@@ -111,6 +114,10 @@ func (c *dcopyCase) modelDecls() string {
 				} else {
 					fs = append(fs, f)
 				}
+			case 'I':
+				// the generator goes by the generic type's own declaration: the type argument plays no part
+				j, _, _ := strings.Cut(f, "x")
+				fs = append(fs, j)
 			default:
 				fs = append(fs, f)
 			}
@@ -226,7 +233,10 @@ import (
 	"errors"
 	"fmt"
 	"reflect"
+	"strings"
 )
+
+var _ = strings.Join
 
 var theErr = errors.New("e")
 
@@ -293,6 +303,19 @@ func mutate(v reflect.Value) (n int) {
 	return n
 }
 
+// diffPaths: the fields (by path from the root) in which the original no longer equals its untouched twin
+func diffPaths(a, b reflect.Value, path string, out *[]string) {
+	if a.Kind() == reflect.Struct {
+		for i := 0; i < a.NumField(); i++ {
+			diffPaths(a.Field(i), b.Field(i), path+"."+a.Type().Field(i).Name, out)
+		}
+		return
+	}
+	if !reflect.DeepEqual(a.Interface(), b.Interface()) {
+		*out = append(*out, path)
+	}
+}
+
 func check(name string, ptr any) {
 	sparse = true
 	checkOnce(name, ptr, true)
@@ -330,7 +353,9 @@ func checkOnce(name string, ptr any, quiet bool) {
 		n = mutate(tmp)
 	}
 	if !reflect.DeepEqual(orig.Interface(), twin.Interface()) {
-		fmt.Println("V", name, "SHARED")
+		var paths []string
+		diffPaths(orig.Elem(), twin.Elem(), "", &paths)
+		fmt.Println("V", name, "SHARED", strings.Join(paths, ","))
 	}
 	if t.Kind() == reflect.Struct {
 		nilp := reflect.Zero(reflect.PointerTo(t))
@@ -519,9 +544,62 @@ func (c *dcopyCase) Oracle(out string) string {
 		return "the generated file differs between the first and the second run"
 	}
 	if len(r.probe) > 0 {
+		if c.onlyThroughTypeParam() {
+			return "executed check of the generated DeepCopy: " + strings.Join(r.probe, "; ") + " — " + dcopyTypeParamClass
+		}
 		return "executed check of the generated DeepCopy: " + strings.Join(r.probe, "; ")
 	}
 	return ""
+}
+
+const dcopyTypeParamClass = "the copy shares a slice or map with its original only below a bare type-parameter field of a generic struct (copied by assignment whatever it is instantiated with)"
+
+// onlyThroughTypeParam: every verdict of the executed check is SHARED, and every shared container lies below a field
+// whose declared type is a bare type parameter
+func (c *dcopyCase) onlyThroughTypeParam() bool {
+	r := c.res
+	if r == nil || len(r.probe) == 0 {
+		return false
+	}
+	for _, l := range r.probe {
+		f := strings.Fields(l) // <pkg>.T<i> SHARED <paths>
+		if len(f) != 3 || f[1] != "SHARED" {
+			return false
+		}
+		var root int
+		if _, err := fmt.Sscanf(f[0][strings.LastIndex(f[0], ".")+1:], "T%d", &root); err != nil {
+			return false
+		}
+		for _, path := range strings.Split(f[2], ",") {
+			if !c.pathThroughTypeParam(root, path) {
+				return false
+			}
+		}
+	}
+	return true
+}
+
+func (c *dcopyCase) pathThroughTypeParam(root int, path string) bool {
+	cur := root
+	for _, seg := range strings.Split(strings.TrimPrefix(path, "."), ".") {
+		var j int
+		if _, err := fmt.Sscanf(seg, "F%d", &j); err != nil || cur >= len(c.Decls) || c.Decls[cur].Under != "s" || j >= len(c.Decls[cur].Fields) {
+			return false
+		}
+		tok := c.Decls[cur].Fields[j]
+		switch tok[0] {
+		case 'P':
+			return true
+		case 'L', 'I':
+			g, _, _ := strings.Cut(tok[1:], "x")
+			if _, err := fmt.Sscan(g, &cur); err != nil {
+				return false
+			}
+		default:
+			return false
+		}
+	}
+	return false
 }
 
 func (c *dcopyCase) Shrinks() []Case {
@@ -531,7 +609,7 @@ func (c *dcopyCase) Shrinks() []Case {
 		used := false
 		for _, d := range c.Decls {
 			for _, f := range d.Fields {
-				if f == fmt.Sprintf("L%d", n-1) || f == fmt.Sprintf("I%d", n-1) {
+				if f == fmt.Sprintf("L%d", n-1) || f == fmt.Sprintf("I%d", n-1) || strings.HasPrefix(f, fmt.Sprintf("I%dx", n-1)) || (f[0] == 'I' && strings.HasSuffix(f, fmt.Sprintf("x%d", n-1))) {
 					used = true
 				}
 			}
@@ -555,6 +633,12 @@ func (c *dcopyCase) Shrinks() []Case {
 				n[i].Fields[j] = "p"
 				out = append(out, &dcopyCase{Decls: n})
 			}
+			if g, _, ok := strings.Cut(f, "x"); ok && f[0] == 'I' {
+				n := append([]DDecl{}, c.Decls...)
+				n[i].Fields = append([]string{}, d.Fields...)
+				n[i].Fields[j] = g // instantiated with int instead
+				out = append(out, &dcopyCase{Decls: n})
+			}
 		}
 		if d.Iface {
 			n := append([]DDecl{}, c.Decls...)
@@ -565,7 +649,12 @@ func (c *dcopyCase) Shrinks() []Case {
 	return out
 }
 
-func (c *dcopyCase) Key() string { return c.srcKey() }
+func (c *dcopyCase) Key() string {
+	if c.onlyThroughTypeParam() && c.res.build[0] == "" && c.res.build[1] == "" && c.res.same {
+		return "class: " + dcopyTypeParamClass
+	}
+	return c.srcKey()
+}
 func (c *dcopyCase) Classes() []string {
 	m := map[string]bool{}
 	for _, d := range c.Decls {
@@ -578,6 +667,13 @@ func (c *dcopyCase) Classes() []string {
 		}
 		for _, f := range d.Fields {
 			m["field:"+f[:1]] = true
+			if _, k, ok := strings.Cut(f, "x"); ok && f[0] == 'I' {
+				var id int
+				fmt.Sscan(k, &id)
+				if id < len(c.Decls) {
+					m["type-argument:defined-"+map[string]string{"c": "scalar", "m": "map", "s": "struct"}[c.Decls[id].Under]] = true
+				}
+			}
 			if (f[0] == 'L' || f[0] == 'I') && len(f) > 1 {
 				var id int
 				fmt.Sscan(f[1:], &id)
@@ -640,7 +736,20 @@ func genDcopy(r *Rng) *dcopyCase {
 					} else {
 						j := r.Intn(i)
 						if decls[j].Generic {
-							d.Fields = append(d.Fields, fmt.Sprintf("I%d", j))
+							tok := fmt.Sprintf("I%d", j)
+							// instantiated with a defined type of the package (a scalar, a map or a plain struct) instead of int
+							if r.Chance(50) {
+								var args []int
+								for k := 0; k < i; k++ {
+									if decls[k].Under == "c" || decls[k].Under == "m" || (decls[k].Under == "s" && !decls[k].Generic) {
+										args = append(args, k)
+									}
+								}
+								if len(args) > 0 {
+									tok = fmt.Sprintf("I%dx%d", j, Pick(r, args))
+								}
+							}
+							d.Fields = append(d.Fields, tok)
 						} else {
 							d.Fields = append(d.Fields, fmt.Sprintf("L%d", j))
 						}
